@@ -101,9 +101,12 @@ def run_case(ctx, cost, labels, blank, tag):
         n_align = 0
     try:
         c_in = cost.copy()
-        l_in = list(labels)
+        if np.array_equal(cost.astype(np.float32).astype(np.float64), cost) and (int(cost.shape[0]) + len(labels)) % 2:
+            c_in = cost.astype(np.float32)          # what the engines hand over
+            ctx.event("float32_costs")
+        l_in = list(labels) if len(labels) % 2 else np.asarray(labels)
         res = FA.force_align(c_in, l_in, blank)
-        ctx.check(np.array_equal(c_in, cost) and l_in == list(labels), "force_align_modifies_its_input", desc)
+        ctx.check(np.array_equal(np.asarray(c_in, dtype=np.float64), cost) and list(l_in) == list(labels), "force_align_modifies_its_input", desc)
         err = None
     except ValueError as e:
         res, err = None, e
@@ -189,6 +192,8 @@ def strat():
                     r.append(float(draw(st.integers(0, 1))))
             rows.append(r)
         cost = np.asarray(rows, dtype=np.float64)
+        if draw(st.integers(0, 3)) == 0:
+            cost = cost.astype(np.float32).astype(np.float64)      # float32-representable values: also run as float32 below
         nonblank = [c for c in range(C) if c != blank]
         L = draw(st.integers(1, T + 2)) if draw(st.integers(0, 3)) == 0 else draw(st.integers(1, max(1, T - 1)))
         labels = []
